@@ -203,6 +203,19 @@ def rule_chanorder(ctx):
             sel["black"] = b
         if c and c["fn"].endswith("::is_alpha"):
             sel["alpha"] = b
+    # a selector may also sit in a closure built here (`.filter(|..| ec.is_alpha())`): use the block that builds the closure
+    for b, blk in enumerate(f.blocks):
+        for st in blk[0]:
+            if st[0] == "=" and st[2][0] == "agg" and st[2][1][0] == "closure":
+                cf = ctx.prog.fn(st[2][1][1])
+                if cf is None:
+                    continue
+                for _, ct in cf.calls():
+                    cc = callee(ct)
+                    if cc and cc["fn"].endswith("::is_black") and "black" not in sel:
+                        sel["black"] = b
+                    if cc and cc["fn"].endswith("::is_alpha") and "alpha" not in sel:
+                        sel["alpha"] = b
     g = pushes.get("grids", [])
     if len(g) != 2 or "black" not in sel or "alpha" not in sel:
         ctx.bad(rid, "from_render|shape", "expected two pushes into `grids` selected by is_black / is_alpha (found %d pushes, selectors %s)" % (len(g), sorted(sel)), fn=f)
@@ -214,6 +227,14 @@ def rule_chanorder(ctx):
         ctx.bad(rid, "from_render|selector", "the black/alpha channel pushes are not selected by is_black()/is_alpha()", fn=f)
         return
     gb, ga = gb[0], ga[0]
+    # each extra grid is pushed at most once: the push is not on a cycle (the loops `break` after the first match)
+    for nm, blk in (("black", gb), ("alpha", ga)):
+        nxt = f.term(blk)[4]
+        if nxt is not None and blk in f.reachable(nxt):
+            ctx.bad(rid, "from_render|%s-pushed-repeatedly" % nm, "the %s grid push lies on a loop without leaving it: every %s-typed extra channel is appended, so the "
+                    "stream has more channels than pixel_format() reports and the documented order colour, black, alpha is lost" % (nm, nm), fn=f, pos=f.term_pos(blk))
+        else:
+            ctx.ok(rid, "once:%s" % nm, "the push is not on a cycle (first match only)", nontrivial=True, fn=f)
     if gb in f.reachable(ga):
         ctx.bad(rid, "from_render|order", "the black channel can be appended after the alpha channel: documented order is colour, black, alpha", fn=f, pos=f.term_pos(gb))
     else:
